@@ -234,7 +234,7 @@ def run(rep):
     # seeded random larger programs (generated as ASTs; the reference outcome is computed by TLC in the judge run)
     nrand = int(os.environ.get("C05_NRAND", "300" if rep.tier == "quick" else "3000"))
     rnd = random.Random(rep.seed)
-    rcases = [{"id": "r%d" % i, "fam": "RND", "par": {"seed": rep.seed, "n": i}, "prog": c05_gen.random_program(rnd)}
+    rcases = [{"id": "r%d" % i, "fam": "RND", "par": {"seed": rep.seed, "n": i}, "prog": c05_gen.random_program(rnd, forms=True)}
               for i in range(nrand)]
     allc = cases + rcases
     results = run_engine(rep, allc)
